@@ -68,7 +68,7 @@ PROPS = {
     },
     "C05": {
         "title": "Without extrapolation a query is answered iff it lies in the closed axis range",
-        "scenarios": ["entries", "linear", "bilinear"],
+        "scenarios": ["entries", "linear", "bilinear", "periodic"],
         "require_cov": [r"^Q1\|Linear\|array\|Err:OutOfBounds", r"^Q1\|Spline\|array_into\|Err:OutOfBounds", r"^Q1\|Linear\|into\|Err:OutOfBounds",
                         r"^Q2\|Bilinear\|interp\|Err:OutOfBounds", r"^Q1\|Linear\|interp\|Ok"],
         "cov_report": [r"^Q[12]\|"],
